@@ -106,6 +106,14 @@ Definition arr_of (t : ty) : ty := match t with TyUnion l => TyUnion (map_last T
 (* text followed by the null alternative *)
 Definition opt_of (t : ty) : ty := match t with TyUnion l => TyUnion (l ++ [null_ty]) | _ => TyUnion [t; null_ty] end.
 
+(* the tree of a mapping target: the README maps Rust types "to TypeScript types", so a target is any
+   type text (unknown, number[], Date, Record<string, string>, a union ...); the renderers paste it verbatim *)
+Definition target_ty (x : str) : ty :=
+  let l := lex_module x in
+  if has_err l then TyRef [x] [] else match ptype l with Some (t, []) => t | _ => TyRef [x] [] end.
+Definition custom_ty (m : mapping) (n : str) : ty :=
+  match lookup m n with Some x => target_ty x | None => TyRef [n] [] end.
+
 Fixpoint ts_ty_of (m : mapping) (t : tstruct) : ty :=
   match t with
   | TPrim p => TyRef [p] []
@@ -116,7 +124,7 @@ Fixpoint ts_ty_of (m : mapping) (t : tstruct) : ty :=
   | TTuple l => TyTuple (map (ts_ty_of m) l)
   | TOpt u => opt_of (ts_ty_of m u)
   | TRes u => ts_ty_of m u
-  | TCustom n => TyRef [match lookup m n with Some x => x | None => n end] []
+  | TCustom n => custom_ty m n
   end.
 
 Definition zid : ex := EId (L "z").
@@ -130,7 +138,7 @@ Definition zcustom_ex (m : mapping) (n : str) : ex :=
               else if str_eqb x (L "number") then zcall "number" []
               else if str_eqb x (L "boolean") then zcall "boolean" []
               else if str_eqb x (L "void") then zcall "void" []
-              else ECall (EMember zid (L "custom") false) [TyRef [x] []] [EArrow [L "val"] (EId (L "true"))]
+              else ECall (EMember zid (L "custom") false) [target_ty x] [EArrow [L "val"] (EId (L "true"))]
   | None => EId (n ++ L "Schema")
   end.
 
@@ -324,6 +332,9 @@ Definition name_ok (n : str) : bool :=
   | [] => false end.
 Definition map_ok (m : mapping) : bool :=
   forallb (fun kv => in_names (snd kv) ["string"; "number"; "boolean"]%string) m.
+(* run-time domain of the correspondence check: any target that is a type text *)
+Definition map_wide (m : mapping) : bool :=
+  forallb (fun kv => let l := lex_module (snd kv) in negb (has_err l) && match ptype l with Some (_, []) => true | _ => false end) m.
 Definition key_ok (t : tstruct) : bool :=
   match t with TPrim p => in_names p ["string"; "number"]%string | _ => false end.
 Fixpoint dom (t : tstruct) : bool :=
